@@ -6,7 +6,7 @@
 #undef  RANDOMX_DATASET_BASE_SIZE
 #define RANDOMX_DATASET_BASE_SIZE  262144
 #undef  RANDOMX_DATASET_EXTRA_SIZE
-#define RANDOMX_DATASET_EXTRA_SIZE 4032
+#define RANDOMX_DATASET_EXTRA_SIZE 65472   /* 1023 extra items: dataset offsets cross the 8-bit boundaries (127/128/255/256 items) */
 #undef  RANDOMX_PROGRAM_ITERATIONS
 #define RANDOMX_PROGRAM_ITERATIONS 16
 #undef  RANDOMX_SCRATCHPAD_L3
